@@ -263,7 +263,7 @@ func (tpl *Template) ExecuteBlocks(context Context, blocks []string) (map[string
 			if _, ok := result[blockName]; ok {
 				continue
 			}
-			if blockWrapper, ok := t.blocks[blockName]; ok {
+			if _, ok := t.blocks[blockName]; ok {
 				// assign the buffer if we haven't done so
 				if buffer == nil {
 					buffer = bytes.NewBuffer(make([]byte, 0, int(float64(t.size)*1.3)))
@@ -275,7 +275,9 @@ func (tpl *Template) ExecuteBlocks(context Context, blocks []string) (map[string
 						return nil, err
 					}
 				}
-				bErr := blockWrapper.Execute(ctx, buffer)
+				// Execute the block like the block tag does, so that block.Super
+				// inside the requested block reaches the parent definitions.
+				bErr := (&tagBlockNode{name: blockName}).Execute(ctx, buffer)
 				if bErr != nil {
 					return nil, bErr
 				}
